@@ -13,6 +13,7 @@ PROP = {
              "TestPolicyFoldThroughDispatcher runs runner.DispatchOnRequest over generated endpoint and global remedy lists (API-key authentication = header edits, fixed_response = early response or no-op, enabled/disabled). "
              "There a case is non-trivial when one header name is edited twice with different values, an answer follows other processors, or no-ops stand next to a modification"),
     "assumptions": [
+        "bodies are mostly short; one in six lies around the sizes at which buffers are usually cut (255 B ... 70000 B, ASCII or multi-byte)",
         "header names are HTTP tokens and values visible ASCII without CR/LF (the line-based header encoding cannot carry them and no producer emits them)",
         "the action-level units re-state the fold loop (getSPOEReqActions / getSPOERespActions / runOnRequest are unexported) from the exported methods EnsureRequestIsUpdated, ReqPrioritize, ReqToSpoeActions; the loops themselves are exercised by the two end-to-end units with the action kinds real processors / remedies produce (ModifyRequest, EarlyResponse, ModifyResponse, NoOp)",
         "policy mode: the order in which endpoint and global remedies run is not part of the statement - endpoint-then-global and global-then-endpoint (each list in declared order) are both accepted as 'the' order; one authentication remedy per scope (the API-key mechanism memoises its headers per endpoint)",
